@@ -260,6 +260,7 @@ type interference struct {
 }
 
 type world struct {
+	lN   int // LiteFS checkpoints attempted
 	conc Conc
 	lay  sim.Layout
 	node *sim.Node
@@ -1017,7 +1018,14 @@ func (w *world) doC(t Tok) (did bool) {
 // ---- process L (LiteFS's own checkpoint)
 
 func (w *world) doL(t Tok) (did bool) {
-	err := w.db.Checkpoint(closedCtx{})
+	// LiteFS's own checkpoint: DB.Checkpoint, or - what a node does at every role change - Store.Recover
+	// (journal rollback + checkpoint of every database); both must wait for the locks an export holds
+	var err error
+	if w.lN++; w.lN%2 == 0 {
+		err = w.db.Checkpoint(closedCtx{})
+	} else {
+		err = w.node.Store.Recover(closedCtx{})
+	}
 	if err != nil {
 		if !errors.Is(err, context.Canceled) {
 			w.anomaly = "L:ckpt: " + err.Error()
